@@ -14,7 +14,7 @@
      {"ev":"Flatten"}               results.Flatten() is started in a goroutine  {"ev":"FlattenRet","outs":[..],"err":e}
      {"ev":"Flat","outs":[..],"err":e}   Flatten applied to a replay channel holding exactly the results received so far
      {"ev":"Q","g":n,"fb":bool,"cb":bool,"fr":bool}   the bubble is quiescent: goroutines of the component alive
-                                    (runtime.NumGoroutine minus the executor's own), fork / cancel blocked, Flatten running
+                                    (those created by package app/forkjoin in the runtime stack dump), fork / cancel blocked, Flatten running
      {"ev":"End"}                   ({"ev":"Leak"|"Hang"|"Panic"} match nothing)
    Not logged, inferred by TLC: the workers' receives from the input channel and their context checks, the enqueue
    goroutines' choice between delivering and dropping, whether a fork with the root context done enqueued its input,
